@@ -31,19 +31,6 @@ Proof.
   destruct (q_kind_change_as_update q || same_kind (e_spec e) sp); reflexivity.
 Qed.
 
-(** the three loops of one watcher at one key *)
-Definition watch_of (cats : list N) (d : trip) (x : option ent) : option ent * trip :=
-  let '(x1, e1) := match t_del d with
-                   | Some e => if wfilter cats e then (None, Some e) else (x, None)
-                   | None => (x, None) end in
-  let '(x2, e2) := match t_cre d with
-                   | Some e => if wfilter cats e then (Some e, Some e) else (x1, None)
-                   | None => (x1, None) end in
-  let '(x3, e3) := match t_upd d with
-                   | Some e => if wfilter cats e then (Some e, Some e) else (x2, None)
-                   | None => (x2, None) end in
-  (x3, {| t_del := e1; t_cre := e2; t_upd := e3 |}).
-
 Lemma stage_w0 n cfgn c : c_ev0 c = trip0 ->
   cell_bodies [w0_del; w0_cre; w0_upd] n cfgn c =
   (set_w0 c (fst (watch_of cats0 (c_diff c) (c_w0 c))) (snd (watch_of cats0 (c_diff c) (c_w0 c))), []).
